@@ -23,7 +23,8 @@ RULE = ("pop-on programs of 1-4 captions from the C05 model with emphasis on lay
         'The SCCReader object is fresh or has a past (see C05). '
         "File layout variants: a line spread over 2-4 frame-contiguous lines at any word, 1-3 "
         "blanks between code words, blanks for the tab after the timecode, blanks / a tab after "
-        "the last word; the notation (';' / ':') may change from caption to caption. ")
+        "the last word; the notation (';' / ':') may change from caption to caption; the stream may end "
+        "while a further caption is being loaded (never displayed). ")
 ASSUMPTIONS = [
     "tolerance 0.01 us against the exact clock (the reader computes in floats)",
     "a gap of <= 5 frames between an erase and the next caption is closed, >= 6 frames is "
@@ -62,7 +63,8 @@ def program_strategy(tier):
         return {"drop": draw(st.booleans()), "double": draw(st.sampled_from(["none", "all", "random"])),
                 "captions": caps, "offset": draw(st.sampled_from(OFFSETS)),
                 "reuse": draw(SP.reuse_strategy()), "cuts": draw(SP.cuts_strategy()),
-                "spacing": draw(SP.spacing_strategy()), "notation": notation}
+                "spacing": draw(SP.spacing_strategy()), "notation": notation,
+                "trailing": draw(SP.trailing_strategy())}
     return build()
 
 
@@ -85,6 +87,7 @@ def build_lines(prog):
         lines_end = _build_caption(lines, t, cap, base, plan, prog)
         t = lines_end
         lines[n_before:] = [(l[0], l[1], drop) for l in lines[n_before:]]
+    lines += [(l[0], l[1], cur_drop) for l in SP.trailing_load(prog, t)]
     return SP.apply_cuts(lines, prog.get("cuts"))
 
 
